@@ -156,3 +156,15 @@ Theorem C05_code_send_request_percall_W : forall cfg T Tp P2 P2S now a1, timing 
   fn_send_request_percall_W T Tp P2 P2S now a1 = ret (obs_sr (send_request cfg st_init tp_req Tp now [(a1, Frame [127; 62; 120])])).
 Proof. exact tie_send_request_percall_W. Qed.
 Print Assumptions C05_code_send_request_percall_W.
+Theorem C05_code_send_request_percall_no_overall_silence : forall cfg Tp P2 P2S now, timing cfg None P2 P2S -> 0 <= Tp ->
+  fn_send_request_percall_no_overall_silence Tp P2 P2S now = ret (obs_sr (send_request cfg st_init tp_req Tp now [])).
+Proof. exact tie_send_request_percall_no_overall_silence. Qed.
+Print Assumptions C05_code_send_request_percall_no_overall_silence.
+Theorem C05_code_send_request_percall_no_overall_P : forall cfg Tp P2 P2S now a1, timing cfg None P2 P2S -> 0 <= Tp -> now < a1 ->
+  fn_send_request_percall_no_overall_P Tp P2 P2S now a1 = ret (obs_sr (send_request cfg st_init tp_req Tp now [(a1, Frame [126; 0])])).
+Proof. exact tie_send_request_percall_no_overall_P. Qed.
+Print Assumptions C05_code_send_request_percall_no_overall_P.
+Theorem C05_code_send_request_percall_no_overall_W : forall cfg Tp P2 P2S now a1, timing cfg None P2 P2S -> 0 <= Tp -> now < a1 ->
+  fn_send_request_percall_no_overall_W Tp P2 P2S now a1 = ret (obs_sr (send_request cfg st_init tp_req Tp now [(a1, Frame [127; 62; 120])])).
+Proof. exact tie_send_request_percall_no_overall_W. Qed.
+Print Assumptions C05_code_send_request_percall_no_overall_W.
